@@ -39,6 +39,16 @@ def make_receiver(recipe):
     else:
         t = core.build(spec, route)
     for h in recipe.get("hist", []):
+        t = apply_hist(t, h)
+    if recipe.get("poke") is not None:
+        import random
+        core.poke_layout(t, random.Random(recipe["poke"]))
+    return t
+
+
+def apply_hist(t, h):
+    """one history step on a live table; returns the table that carries on"""
+    if True:
         op = h[0]
         if op == "sort":
             ty = t.type
@@ -93,11 +103,11 @@ def make_receiver(recipe):
                 md[h[2]][h[3]] = h[4]
         elif op == "del_md":
             t.del_metadata(keys=h[2], axis=h[1])
+        elif op == "add_md":
+            # annotate only SOME of the IDs of an axis
+            t.add_metadata({k: dict(v) for k, v in h[2]}, axis=h[1])
         else:
             raise ValueError(op)
-    if recipe.get("poke") is not None:
-        import random
-        core.poke_layout(t, random.Random(recipe["poke"]))
     return t
 
 
@@ -132,7 +142,12 @@ def make_family(recipe):
     if "self" not in fam["kinds"]:
         members.append(src)
     target = members[fam["target"]]
-    return target, [m for m in members if m is not target]
+    others = [m for m in members if m is not target]
+    for h in fam.get("target_hist", []):
+        # in-place steps on the target AFTER the derivation (e.g. update_ids swapping names): the others still hold
+        # whatever they shared with it
+        target = apply_hist(target, h)
+    return target, others
 
 
 def layout_of(t, axis):
@@ -335,6 +350,30 @@ def run_filter(recipe, axis, keep, form, invert, inplace, mods, rng=None, deep=F
             arg = make_pred(keep, log)
     else:
         arg = {"int": 5, "none": None, "callable-object": _Callable()}[keep.get("what", "int")]
+    arg_before = None
+    if keep["kind"] == "ids" and form in ("list", "tuple", "array", "strarray"):
+        arg_before = [str(x) for x in arg]
+    pstyle = opts.get("predstyle") if keep["kind"] == "pred" else None
+    if pstyle == "decorated":
+        import functools
+        inner = arg
+
+        def deco(f):
+            @functools.wraps(f)
+            def wrapper(*a, **kw):
+                return f(*a, **kw)
+            return wrapper
+        arg = deco(deco(inner))
+    elif pstyle == "reentrant":
+        # the predicate itself filters other tables (and a copy of the receiver) while the outer filter runs
+        inner, side = arg, t.copy()
+
+        def arg(v, i, m):
+            side.filter(lambda vv, ii, mm: bool(vv.sum() >= 0), axis=axis, inplace=False)
+            side.filter([i], axis=axis, inplace=False)
+            if 0 not in side.shape:
+                side.head(1, 1)
+            return inner(v, i, m)
     inv, inp = flag(invert, opts.get("style")), flag(inplace, opts.get("style"))
     if opts.get("positional"):
         call = lambda: t.filter(arg, axis, inv, inp)
@@ -347,6 +386,11 @@ def run_filter(recipe, axis, keep, form, invert, inplace, mods, rng=None, deep=F
                 warnings.simplefilter("ignore")
                 with E.errstate(empty=profile):
                     res, rt = observe(call)
+        elif opts.get("warnings") == "error":
+            # a caller that turns warnings into errors: the operation must not depend on emitting one
+            with warnings.catch_warnings():
+                warnings.simplefilter("error")
+                res, rt = observe(call)
         else:
             res, rt = observe(call)
         after = core.table_obs(t)
@@ -360,6 +404,8 @@ def run_filter(recipe, axis, keep, form, invert, inplace, mods, rng=None, deep=F
         if bystanders:
             obs["bystanders"] = [{"before": b["before"], "after": core.table_obs(b["t"]),
                                   "lk": lookups(b["t"], b["before"], True)} for b in bystanders]
+        if arg_before is not None:
+            obs["arg_before"], obs["arg_after"] = arg_before, [str(x) for x in arg]
     return {"op": "filter", "t": before, "layout": layout, "axis": axis, "keep": keep, "invert": invert,
             "inplace": inplace, "empty_profile": profile, "obs": obs}
 
@@ -663,6 +709,37 @@ def small_spec(grid, md_mode):
             "type": "OTU table" if md_mode else None}
 
 
+def vary_spec(spec, k):
+    """variations that apply to ANY spec, chosen by a counter: PARTLY annotated axes (some IDs with, some without
+    metadata; entries {} and None alternate) and NAMES SHARED by both axes (same names, same or other order)"""
+    spec = dict(spec)
+    if k % 4 in (1, 3):
+        for ax, key, word in (("obs", "omd", "o"), ("samp", "smd", "s")):
+            ids = spec[ax]
+            if len(ids) < 2:
+                continue
+            md = spec.get(key)
+            if md is None and (k // 4) % 2:
+                md = [{"only": "%s%d" % (word, i)} for i in range(len(ids))]
+            if md is None:
+                continue
+            md = [dict(e) if e else e for e in md]
+            blank = [i for i in range(len(ids)) if (i + k // 8) % 2 == 0]
+            if len(blank) == len(ids):
+                blank = blank[1:]
+            for j, i in enumerate(blank):
+                md[i] = {} if j % 2 == 0 else None
+            spec[key] = md
+    if k % 4 in (2, 3):
+        obs, samp = list(spec["obs"]), list(spec["samp"])
+        shared = min(len(obs), len(samp)) if (k // 4) % 3 else 1
+        names = obs[:shared]
+        if (k // 4) % 2:
+            names = names[::-1]
+        spec["samp"] = names + samp[shared:]
+    return spec
+
+
 def all_grids(n, m, alphabet=(0, 1, 2)):
     for cells in itertools.product(alphabet, repeat=n * m):
         yield [list(cells[i * m:(i + 1) * m]) for i in range(n)]
@@ -693,7 +770,7 @@ def exhaustive_chunk(ctx, batch, impls, grids, full_product_upto=0):
     for gi, grid in grids:
         rot = gi * 7
         n, m = len(grid), len(grid[0])
-        spec = small_spec(grid, gi % 4)
+        spec = vary_spec(small_spec(grid, gi % 4), gi // 4)
         for axis in ("observation", "sample"):
             ids = spec["obs"] if axis == "observation" else spec["samp"]
             recipe = {"spec": spec, "route": SMALL_ROUTES[(gi + (axis == "sample")) % len(SMALL_ROUTES)]}
@@ -856,7 +933,15 @@ def random_cases(ctx, batch, impls, n_cases, max_dim):
     rng = ctx.rng
     for _ in range(n_cases):
         spec = core.gen_spec(rng, max_n=max_dim, max_m=max_dim,
-                             classes=rng.choice([("count",), ("smallcount", "neg"), ("dyadic", "neg", "count")]))
+                             classes=rng.choice([("count",), ("smallcount", "neg"), ("dyadic", "neg", "count"),
+                                                 ("tiny", "big", "smallcount"), ("bits", "count")]))
+        if rng.random() < 0.2:
+            # values at the edges of binary64 that are carried, never computed: denormals, integers beyond 2**24 and
+            # 2**53, non-dyadic fractions
+            edge = [5e-324, 2.0 ** 24 + 1, 2.0 ** 53 + 2, 0.1, 1.0 / 3, -0.7, 1e-310, 123456789.125]
+            spec["rows"] = [[rng.choice(edge) if x != 0 and rng.random() < 0.6 else x for x in r] for r in spec["rows"]]
+        if rng.random() < 0.45:
+            spec = vary_spec(spec, rng.randrange(48))       # partly annotated axes, names shared by both axes
         recipe = {"spec": spec, "route": rng.choice(core.ROUTES + ["perm_sort"]), "hist": random_hist(rng, spec)}
         if rng.random() < 0.5:
             recipe["poke"] = rng.randrange(10 ** 6)       # leave the receiver in a random internal layout
@@ -943,8 +1028,11 @@ def head_cases(ctx, batch, impls):
     rot = 0
     for (n, m) in [(1, 1), (2, 3), (3, 2), (4, 5), (6, 3)]:
         grid = [[(i * m + j) % 4 for j in range(m)] for i in range(n)]
-        for md_mode in (0, 1):
-            spec = small_spec(grid, md_mode)
+        for md_mode in (0, 1, 2, 3):
+            # md_mode 2, 3: partly annotated axes and names shared by both axes (same / reversed order)
+            spec = small_spec(grid, md_mode % 2)
+            if md_mode >= 2:
+                spec = vary_spec(spec, [7, 11][md_mode - 2] + 4 * (n + m))
             for hn in (-1, 0, 1, 2, n, n + 3):
                 for hm in (0, 1, 2, m, m + 2):
                     rot += 1
@@ -1027,7 +1115,11 @@ def wide_cases(ctx, batch, impls, n_cases):
         n, m = shapes[c % len(shapes)]
         if c % 40 == 39:
             n, m = 70, 70
+        if c % 40 in (17, 18):
+            n, m = [(2, 600), (520, 2)][c % 2]             # beyond 512 IDs
         spec = wide_spec(rng, n, m, c % 4)
+        if c % 3 == 2:
+            spec = vary_spec(spec, c)
         recipe = {"spec": spec, "route": ["dense", "csr", "perm_sort", "csc"][c % 4]}
         long_axis = "sample" if m >= n else "observation"
         axis = long_axis if c % 5 else ("observation" if long_axis == "sample" else "sample")
@@ -1063,6 +1155,8 @@ def chain_cases(ctx, batch, impls, shard=(0, 1)):
     for gi, grid in enumerate(grids):
         for md_mode in (0, 1):
             spec = small_spec(grid, md_mode)
+            if gi == 1:
+                spec = vary_spec(spec, 3 + 4 * md_mode)     # partly annotated axes, a name shared by both axes
             for axis1 in ("observation", "sample"):
                 ids1 = spec["obs"] if axis1 == "observation" else spec["samp"]
                 other = spec["samp"] if axis1 == "observation" else spec["obs"]
@@ -1182,10 +1276,19 @@ def hardening_cases(ctx, batch, impls, n_cases, first=True):
     kinds_pool = ["self", "copy", "filter_all", "filter_pred", "sort", "transpose", "ctor"]
     for c in range(n_cases):
         spec = core.gen_spec(rng, max_n=4, max_m=4, min_n=2, min_m=2, classes=("smallcount",), alphabet="ascii")
+        spec = vary_spec(spec, c)
         kinds = ["self"] + rng.sample(kinds_pool[1:], 3)
         target = c % len(kinds)
         recipe = {"spec": spec, "route": rng.choice(["dense", "csr", "csc", "perm_sort"]),
                   "family": {"kinds": kinds, "target": target}, "poke": rng.randrange(10 ** 6)}
+        if c % 3 == 1 and kinds[target] != "transpose":
+            # the target's names are rotated / swapped in place AFTER the derivation: every other member keeps the
+            # old names and must still find them itself
+            ax0 = rng.choice(["observation", "sample"])
+            ids0 = spec["obs"] if ax0 == "observation" else spec["samp"]
+            rot = ids0[1:] + ids0[:1]
+            if not set(rot) & (set(spec["obs"]) if ax0 == "sample" else set(spec["samp"])) or True:
+                recipe["family"]["target_hist"] = [["update_ids", ax0, [[a, b] for a, b in zip(ids0, rot)]]]
         fam = guarded(ctx, {"kind": "receiver", "recipe": recipe}, ("family",), lambda: make_family(recipe))
         if fam is None:
             continue
@@ -1201,6 +1304,7 @@ def hardening_cases(ctx, batch, impls, n_cases, first=True):
     # result has an empty axis raises TableException (the copying call leaves the receiver alone)
     for c in range(n_cases):
         spec = core.gen_spec(rng, max_n=3, max_m=4, min_n=1, min_m=1, classes=("smallcount",), alphabet="ascii")
+        spec = vary_spec(spec, c // 2)
         recipe = {"spec": spec, "route": rng.choice(core.ROUTES), "poke": rng.randrange(10 ** 6) if c % 2 else None}
         axis = rng.choice(["observation", "sample"])
         ids = spec["obs"] if axis == "observation" else spec["samp"]
@@ -1228,6 +1332,7 @@ def hardening_cases(ctx, batch, impls, n_cases, first=True):
     # (d) every spelling of the arguments
     for c in range(n_cases):
         spec = core.gen_spec(rng, max_n=7, max_m=7, min_n=1, min_m=1, classes=("smallcount",), alphabet="ascii")
+        spec = vary_spec(spec, c)
         recipe = {"spec": spec, "route": rng.choice(core.ROUTES)}
         axis = rng.choice(["observation", "sample"])
         ids = spec["obs"] if axis == "observation" else spec["samp"]
@@ -1248,13 +1353,26 @@ def hardening_cases(ctx, batch, impls, n_cases, first=True):
     # (e) ID texts that look alike (blanks, case, prefixes, a trailing newline, non-ASCII): requests naming members
     # and texts that only look like members; the same on a long axis
     for c in range(n_cases):
-        k = rng.randint(2, len(HARD_IDS))
-        ids = rng.sample(HARD_IDS, k)
+        pool = HARD_IDS + core.twin_ids(rng, 2) + rng.sample(core.NASTY_TEXTS, 4)
+        k = rng.randint(2, 8)
+        ids = rng.sample(pool, k)
         other = ["o%d" % i for i in range(rng.randint(1, 3))]
+        if c % 4 == 3:
+            other[0] = ids[-1]                      # a name that stands on both axes
         axis = "sample" if c % 2 else "observation"
+        # texts that trip naive handling also as metadata VALUES, on some of the IDs only
+        md = [({"txt": rng.choice(core.NASTY_TEXTS), "n": i} if i % 3 != 1 else ({} if i % 2 else None))
+              for i in range(len(ids))] if c % 3 else None
         spec = {"obs": other if axis == "sample" else ids, "samp": ids if axis == "sample" else other,
-                "rows": None, "omd": None, "smd": None, "type": None}
+                "rows": None, "omd": md if axis == "observation" else None, "smd": md if axis == "sample" else None,
+                "type": None}
         spec["rows"] = [[float(rng.choice([0, 0, 1, 2])) for _ in spec["samp"]] for _ in spec["obs"]]
+        if md is not None and c % 2 == 0:
+            val = json.dumps(md[0]["txt"], sort_keys=True, ensure_ascii=False)
+            impl, mods = impls[c % len(impls)]
+            do_filter(ctx, batch, impl, mods, {"spec": spec, "route": rng.choice(core.ROUTES)}, axis,
+                      pred_desc({"name": "md_eq", "key": "txt", "val": val}), "pred", bool(c % 4 == 0), bool(c % 8 < 4),
+                      ("hard-ids", "nasty-metadata"), deep=True)
         recipe = {"spec": spec, "route": rng.choice(core.ROUTES)}
         impl, mods = impls[c % len(impls)]
         sub = [i for i in ids if rng.random() < 0.5]
@@ -1272,6 +1390,30 @@ def hardening_cases(ctx, batch, impls, n_cases, first=True):
         do_filter(ctx, batch, impl, mods, {"spec": spec, "route": "csr"}, "sample",
                   {"kind": "ids", "ids": [ids[70 % len(ids)], bad, ids[3]]}, ["list", "tuple", "array"][c % 3], False,
                   bool(c % 2), ("wide", "unknown-id"))
+    # (g) predicates that are decorated functions or that filter other tables themselves while the outer filter
+    # runs; callers that turn warnings into errors; axes annotated for SOME IDs only by add_metadata
+    for c in range(n_cases):
+        spec = core.gen_spec(rng, max_n=4, max_m=4, min_n=2, min_m=2, classes=("smallcount", "count"), alphabet="ascii")
+        spec = vary_spec(spec, c)
+        axis = rng.choice(["observation", "sample"])
+        ids = spec["obs"] if axis == "observation" else spec["samp"]
+        recipe = {"spec": spec, "route": rng.choice(core.ROUTES + ["perm_sort"])}
+        if c % 3 == 0 and spec["omd" if axis == "observation" else "smd"] is None:
+            recipe["hist"] = [["add_md", axis, [[i, {"added": "x%d" % j}] for j, i in enumerate(ids) if j % 2 == 0]]]
+        impl, mods = impls[c % len(impls)]
+        opts = [{"predstyle": "decorated"}, {"predstyle": "reentrant"}, {"warnings": "error"},
+                {"predstyle": "reentrant", "shared": True}][c % 4]
+        if c % 2:
+            keep, form = pred_desc(dict(rng.choice(VEC_PREDS[:6]))), "pred"
+        else:
+            keep, form = {"kind": "ids", "ids": [i for i in ids if rng.random() < 0.6][::-1]}, \
+                rng.choice(["list", "array", "tuple"])
+            opts = {"warnings": "error"} if c % 4 == 0 else None
+        do_filter(ctx, batch, impl, mods, recipe, axis, keep, form, bool(c % 3 == 0), bool(c % 2 == 0),
+                  ("styles",), deep=True, opts=opts)
+        if c % 4 == 1:
+            do_remove_empty(ctx, batch, impl, mods, recipe, rng.choice([axis, "whole"]), bool(c % 8 == 1), ("styles",))
+            do_head(ctx, batch, impl, mods, recipe, rng.randint(1, 3), rng.randint(1, 3), ("styles",))
     # (f) ONE predicate function object used on a series of different tables and axes
     for d in ({"name": "wsum_gt", "k": "3"}, {"name": "first_nz"}, {"name": "md_eq", "key": "grp", "val": "\"a\""}):
         for c in range(max(6, n_cases // 6)):
@@ -1287,7 +1429,8 @@ def degenerate_cases(ctx, batch, impls, shard=(0, 1)):
     filtered to nothing by an empty collection or by a predicate nothing passes (in place and copying),
     remove_empty of an all-zero table — then head(n, m) with sizes below, equal to and above the populated axis,
     filter (IDs in non-axis order, predicates, invert) and remove_empty on the populated and on the empty axis"""
-    full = small_spec([[1, 2, 0, 4, 5, 0, 7], [0, 0, 0, 0, 0, 0, 0], [3, 0, 1, 0, 2, 0, 6], [0, 9, 0, 0, 0, 0, 8]], 1)
+    full = vary_spec(small_spec([[1, 2, 0, 4, 5, 0, 7], [0, 0, 0, 0, 0, 0, 0], [3, 0, 1, 0, 2, 0, 6],
+                                 [0, 9, 0, 0, 0, 0, 8]], 1), 1)          # partly annotated axes
     plain = small_spec([[1, 0], [0, 2], [3, 4]], 0)
     zero = small_spec([[0, 0, 0], [0, 0, 0]], 1)
     k = 0
